@@ -26,7 +26,7 @@ class UnitR(Unit):
     def build(self, repo, probe=False):
         out = Out()
         out.spec(HEAD)
-        self._trusted = prelude(out, ['ax-rc', 'ax-parse', 'ax-string-eq', 'ax-tryfrom', 'ax-from-unsigned', 'stdspec-parse', 'stdspec-chars', 'stdspec-contains'],
+        self._trusted = prelude(out, ['ax-rc', 'ax-parse', 'ax-string-eq', 'ax-tryfrom', 'ax-from-unsigned', 'stdspec-parse', 'stdspec-chars', 'stdspec-bytelen', 'ax-bytelen', 'stdspec-contains'],
                                 [('dep_reqwest.rs', ['reqwest-error'])])
         hc = HelpersContent(repo)
         hc.emit_error(out, probe, record=False)
@@ -35,9 +35,11 @@ class UnitR(Unit):
         return out
 
     def props_of(self, ob):
+        # the Option / Vec delegation impls also carry C07 ("inside optional or repeated members, at any depth")
+        deleg = ob.startswith('restrictions::Vec<C>::') or ob.startswith('restrictions::Option<C>::')
         if ob.endswith('#safety'):
-            return ['C06', 'C13']
-        return ['C06']
+            return ['C06', 'C13'] + (['C07'] if deleg else [])
+        return ['C06'] + (['C07'] if deleg else [])
 
     def trusted_base(self):
         return list(self._trusted)
